@@ -1,6 +1,7 @@
 """C17 — including a file is equivalent to assembling its text in place."""
 import copy
 import random
+import re
 
 import impl
 import proggen as P
@@ -106,6 +107,18 @@ def gen_case(rng, tier):
         else:
             files = [[d(1), inc(1), d(2)], [d(9)]]
         case = {'kind': kind, 'cfg': cfg, 'files': files, 'unsplit': None}
+    if rng.random() < 0.35:
+        # a preprocessor symbol named like a word of an included file's name: the directive names the file literally
+        incs = [s['name'] for f in case['files'] for s in f if s['k'] == 'include']
+        if incs:
+            word = rng.choice(re.split(r'[.\-]', rng.choice(incs)) + ['include'])
+            dfn = {'k': 'define', 'name': word}
+            if rng.random() < 0.6:
+                dfn['v'] = rng.choice([5, 'inc2', 'main', 'other'])
+            main = case['files'][0]
+            main.insert(rng.choice([0, 0, rng.randint(0, len(main))]), dfn)
+            if case.get('unsplit') is not None:
+                case['unsplit'] = [dfn] + case['unsplit']
     case['seed'] = rng.randrange(1 << 30)
     case['dirs'] = rng.choice([[], ['d1'], ['d1', 'd2']]) if case['kind'] == 'split' else []
     case['placement'] = {str(i): rng.choice([''] + case['dirs']) for i in range(1, len(case['files']))}
